@@ -183,13 +183,12 @@ func (c *FnCtx) smtFor(obs []*Obligation, withModel bool) string {
 		b.WriteString("))\n")
 	}
 	b.WriteString("(check-sat)\n")
-	if withModel && len(c.Witness) > 0 {
-		b.WriteString("(get-value (")
-		for _, w := range c.Witness {
-			b.WriteString(w.Term.S)
-			b.WriteByte(' ')
+	if withModel && len(obs) == 1 {
+		if ws := witnessTerms(obs[0]); len(ws) > 0 {
+			b.WriteString("(get-value (")
+			b.WriteString(strings.Join(ws, " "))
+			b.WriteString("))\n")
 		}
-		b.WriteString("))\n")
 	}
 	return b.String()
 }
@@ -214,12 +213,9 @@ func (c *FnCtx) smtRelaxed(o *Obligation) string {
 	}
 	fmt.Fprintf(&b, "(assert (not %s))\n", o.Goal.S)
 	b.WriteString("(check-sat)\n")
-	if len(c.Witness) > 0 {
+	if ws := witnessTerms(o); len(ws) > 0 {
 		b.WriteString("(get-value (")
-		for _, w := range c.Witness {
-			b.WriteString(w.Term.S)
-			b.WriteByte(' ')
-		}
+		b.WriteString(strings.Join(ws, " "))
 		b.WriteString("))\n")
 	}
 	return b.String()
